@@ -155,6 +155,33 @@ def rnd_ctx(rng, depth, width):
     return c
 
 
+def graft_deep_child(rng, s):
+    """Make sure the tree has the shape random generation hardly ever reaches within its depth budget: a frame whose context has
+    a child context with an inner stack, and a child task stack before it, the frames of both holding contexts with a start_line."""
+    import stackscope
+
+    def leaf_frame():
+        f = rnd_frame(rng, 0, 0)
+        f.hide = False
+        f.contexts = [stackscope.Context(obj=None, is_async=rng.random() < 0.5, start_line=rng.choice([5, 6, 12]),
+                                         varname=rng.choice([None, "x"]), description=rng.choice([None, "desc(...)"]))
+                      for _ in range(rng.randint(1, 2))]
+        return f
+
+    inner = stackscope.Stack(root=None, frames=[leaf_frame()], leaf=None, error=None)
+    child = stackscope.Context(obj=None, is_async=False, start_line=rng.choice([None, 6]), description="enter_context(...)",
+                               inner_stack=inner)
+    kids = [child, stackscope.Context(obj=None, is_async=True, start_line=rng.choice([None, 12]), description="callback(...)")]
+    if rng.random() < 0.5:
+        kids.insert(0, stackscope.Stack(root=None, frames=[leaf_frame()], leaf=None, error=None))
+    top = stackscope.Context(obj=None, is_async=False, start_line=5, varname="x", children=kids)
+    host = rnd_frame(rng, 0, 0)
+    host.hide = False
+    host.contexts = [top] + [stackscope.Context(obj=None, is_async=False, start_line=12)]
+    s.frames.insert(rng.randint(0, len(s.frames)), host)
+    return s
+
+
 # ---- description for the Lean model ---------------------------------------------------------
 
 def frame_name(f) -> str:
